@@ -68,7 +68,7 @@ def probe_module(i, d, table, want):
     leaves = smgen.leaves_of(forest)
     supers = smgen.supers_of(forest)
     specs = smgen.data_specs(forest)
-    events = smgen.event_names(d)
+    events = list(dict.fromkeys(smgen.event_names(d)))      # an event may be declared in several blocks
     MT = (lambda s: '%s<%s>' % (name, s)) if concrete else (lambda s: '%s<Ctx, %s>' % (name, s))
     DM = ('Dynamic%s' % name) if concrete else ('Dynamic%s<Ctx>' % name)
     L = []
